@@ -6,6 +6,8 @@ import (
 	"fmt"
 	"math"
 
+	"gonum.org/v1/gonum/blas"
+	"gonum.org/v1/gonum/blas/blas64"
 	"gonum.org/v1/gonum/internal/verif/vlib"
 	"gonum.org/v1/gonum/mat"
 )
@@ -340,6 +342,54 @@ func (u userSymBand) SymBand() (int, int) {
 	return u.m.r, u.k
 }
 
+// userRawSymBand is a user SymBanded type that also exposes its (padded) raw storage.
+type userRawSymBand struct {
+	userSymBand
+	raw blas64.SymmetricBand
+}
+
+func (u userRawSymBand) RawSymBand() blas64.SymmetricBand { return u.raw }
+func (u userRawSymBand) T() mat.Matrix                    { return u }
+func (u userRawSymBand) TBand() mat.Banded                { return u }
+
+// rawSymBand stores the upper band of a (bandwidth k) in rows of length k+1+pad, the padding
+// and the unused tail of the last rows being NaN poison.
+func rawSymBand(a *M, k, pad int) blas64.SymmetricBand {
+	n := a.r
+	stride := k + 1 + pad
+	data := make([]float64, n*stride)
+	vlib.FillPoison64(data)
+	for i := 0; i < n; i++ {
+		for j := i; j < n && j <= i+k; j++ {
+			data[i*stride+j-i] = a.at(i, j)
+		}
+	}
+	return blas64.SymmetricBand{N: n, K: k, Stride: stride, Uplo: blas.Upper, Data: data}
+}
+
+// symBandRep returns the band matrix a (bandwidth k) in the named representation.
+func symBandRep(rep string, a *M, k int) mat.SymBanded {
+	switch rep {
+	case "symband":
+		sb := mat.NewSymBandDense(a.r, k, nil)
+		for i := 0; i < a.r; i++ {
+			for j := i; j < a.r && j <= i+k; j++ {
+				sb.SetSymBand(i, j, a.at(i, j))
+			}
+		}
+		return sb
+	case "symband-strided":
+		var sb mat.SymBandDense
+		sb.SetRawSymBand(rawSymBand(a, k, 3))
+		return &sb
+	case "usersymband":
+		return userSymBand{a.clone(), k}
+	case "userrawsymband":
+		return userRawSymBand{userSymBand{a.clone(), k}, rawSymBand(a, k, 2)}
+	}
+	panic("symBandRep " + rep)
+}
+
 type userVec struct{ v []float64 }
 
 func (u userVec) Dims() (int, int) { return len(u.v), 1 }
@@ -419,7 +469,7 @@ func repGen(rep string, a *M) mat.Matrix {
 	panic("unknown rep " + rep)
 }
 
-var symReps = []string{"sym", "symview", "usersym", "symband"}
+var symReps = []string{"sym", "symview", "usersym", "symband", "symband-strided", "userrawsymband"}
 
 // repSym returns the symmetric matrix a in the named representation. The
 // unreferenced triangle of SymDense storage is NaN poison.
@@ -456,6 +506,9 @@ func repSym(rep string, a *M) mat.Symmetric {
 			}
 		}
 		return sb
+	case "symband-strided", "userrawsymband":
+		// full bandwidth, rows padded: every routine taking a Symmetric may meet such an operand
+		return symBandRep(rep, a, n-1).(mat.Symmetric)
 	case "dense-as-sym":
 		return userSym{a.clone()}
 	}
